@@ -458,6 +458,16 @@ func (m *machine) registerIntrinsics() {
 		t[1] = int64(unixToInternal + 1700000000 + now/1000000000)
 		return t
 	}
+	// context.DeadlineExceeded's methods (package context itself is modelled, not interpreted)
+	in["(context.deadlineExceededError).Error"] = func(fr *frame, fn *ssa.Function, args []value) value {
+		return "context deadline exceeded"
+	}
+	in["(context.deadlineExceededError).Timeout"] = func(fr *frame, fn *ssa.Function, args []value) value {
+		return true
+	}
+	in["(context.deadlineExceededError).Temporary"] = func(fr *frame, fn *ssa.Function, args []value) value {
+		return true
+	}
 	in["time.Sleep"] = func(fr *frame, fn *ssa.Function, args []value) value {
 		fr.i.yield(fr)
 		return nil
